@@ -887,10 +887,10 @@ func sortSlice(x *Exec, st *State, fr *Frame, args []Value, site ssa.Instruction
 	s := args[0].(*IfaceV).V.(*SliceV)
 	less := args[1]
 	n := s.Len
-	if n > 8 {
-		panic(x.fault("sort.Slice of %d elements exceeds the network bound 8 at %s", n, x.pos(site)))
+	if n > 64 {
+		panic(x.fault("sort.Slice of %d elements exceeds the network bound 64 at %s", n, x.pos(site)))
 	}
-	x.assumptions["sort.Slice modelled as a compare-exchange network running the real less function (n<=8)"] = true
+	x.assumptions["sort.Slice modelled as a compare-exchange (bubble) network running the real less function"] = true
 	states := []*State{st}
 	for pass := 0; pass < n; pass++ {
 		for j := 0; j+1 < n-pass; j++ {
@@ -915,8 +915,8 @@ func sortSlice(x *Exec, st *State, fr *Frame, args []Value, site ssa.Instruction
 func sortInts(x *Exec, st *State, fr *Frame, args []Value, site ssa.Instruction) []Result {
 	s := args[0].(*SliceV)
 	n := s.Len
-	if n > 8 {
-		panic(x.fault("sort.Ints of %d elements exceeds the network bound 8", n))
+	if n > 64 {
+		panic(x.fault("sort.Ints of %d elements exceeds the network bound 64", n))
 	}
 	for pass := 0; pass < n; pass++ {
 		for j := 0; j+1 < n-pass; j++ {
@@ -930,7 +930,7 @@ func sortInts(x *Exec, st *State, fr *Frame, args []Value, site ssa.Instruction)
 
 func sortSort(x *Exec, st *State, fr *Frame, args []Value, site ssa.Instruction) []Result {
 	data := args[0]
-	x.assumptions["sort.Sort modelled as a bubble network running the real Len/Less/Swap (n<=8)"] = true
+	x.assumptions["sort.Sort modelled as a bubble network running the real Len/Less/Swap"] = true
 	var out []Result
 	for _, r0 := range x.callMethod(st, fr, data, "Len", nil, site) {
 		nt := r0.Val.(*Term)
@@ -938,8 +938,8 @@ func sortSort(x *Exec, st *State, fr *Frame, args []Value, site ssa.Instruction)
 			panic(x.fault("sort.Sort: symbolic Len"))
 		}
 		n := int(nt.U)
-		if n > 8 {
-			panic(x.fault("sort.Sort of %d elements exceeds the network bound 8", n))
+		if n > 64 {
+			panic(x.fault("sort.Sort of %d elements exceeds the network bound 64", n))
 		}
 		states := []*State{r0.St}
 		for pass := 0; pass < n; pass++ {
